@@ -19,7 +19,9 @@ IsEvent(name) == l <= Len(Traces[tid]) /\ Ev.e = name /\ l' = l + 1 /\ tid' = ti
 ToSet(s) == { s[i] : i \in 1..Len(s) }
 
 TArch == /\ IsEvent("arch") /\ a = EmptyArch
-         /\ a' = [members |-> Ev.members, nfolders |-> Ev.nfolders, damaged |-> {}, encrypted |-> Ev.encrypted, bypath |-> Ev.bypath,
+         /\ a' = [members |-> Ev.members, nfolders |-> Ev.nfolders,
+                  damaged |-> IF "damaged" \in DOMAIN Ev THEN ToSet(Ev.damaged) ELSE {},     \* folders whose packed stream starts with a damaged byte
+                  encrypted |-> Ev.encrypted, bypath |-> Ev.bypath,
                   methods |-> IF "methods" \in DOMAIN Ev THEN Ev.methods ELSE <<"?">>,
                   extra |-> IF "extra" \in DOMAIN Ev THEN Ev.extra ELSE 0]       \* folders that hold no stream (sessions of directories only)
          /\ dec' = [f \in 1..Ev.nfolders |-> -1]
@@ -32,18 +34,21 @@ Parents(S) == { d \in Idx : \E i \in S : Under(i, d) }        \* directories nee
 TExtract == /\ IsEvent("call") /\ Ev.name \in {"extract", "extractall"}
             /\ IF Ev.name = "extract" THEN Extract(ToSet(Ev.T), Ev.rec) ELSE ExtractAll
             \* C09 / C12: exactly the selected members, each with its own bytes, nothing else
-            /\ Ev.ok = res'.ok
-            /\ ToSet(Ev.out) = NonDirs(res'.out)
-            /\ IF Ev.sink = "factory" THEN Ev.dirs_out = <<>>                    \* a WriterFactory never receives directories
-               ELSE /\ Dirs(res'.out) \subseteq ToSet(Ev.dirs_out)              \* selected directories are created
-                    /\ ToSet(Ev.dirs_out) \subseteq Dirs(res'.out) \cup Parents(res'.out)   \* ... and only needed parents besides
-            /\ Ev.bad = <<>> /\ Ev.extra = 0
+            /\ Ev.ok = res'.ok                                                  \* raises exactly when a damaged folder has to be decoded
+            /\ res'.ok =>
+                 /\ ToSet(Ev.out) = NonDirs(res'.out)
+                 /\ IF Ev.sink = "factory" THEN Ev.dirs_out = <<>>                    \* a WriterFactory never receives directories
+                    ELSE /\ Dirs(res'.out) \subseteq ToSet(Ev.dirs_out)              \* selected directories are created
+                         /\ ToSet(Ev.dirs_out) \subseteq Dirs(res'.out) \cup Parents(res'.out)   \* ... and only needed parents besides
+                 /\ Ev.extra = 0
+            /\ Ev.bad = <<>>                                                     \* never a member with other bytes, also when the call fails
 
 TTestZip == /\ IsEvent("call") /\ Ev.name = "testzip" /\ TestZip
-            /\ Ev.ok /\ (Ev.verdict = "none") = res'.ok          \* intact archive: no damage reported, at any point of the session
+            \* intact: None, at any point of the session; a damaged folder: a bad member is named, or the decoder's error is raised - never None
+            /\ IF res'.ok THEN Ev.ok /\ Ev.verdict = "none" ELSE (~Ev.ok \/ Ev.verdict # "none")
 
 TTest == /\ IsEvent("call") /\ Ev.name = "test" /\ Test
-         /\ Ev.ok /\ Ev.verdict \in {"none", "true"}
+         /\ Ev.ok /\ Ev.verdict \in (IF a.damaged = {} THEN {"none", "true"} ELSE {"none", "false"})   \* packed CRCs, when stored, tell
 
 TReset == IsEvent("call") /\ Ev.name = "reset" /\ Reset /\ Ev.ok
 
